@@ -42,7 +42,7 @@ ENGINE = "sansio"
 TECHNIQUE = "bounded exhaustive interleaving enumeration + random schedules; log replay against an independent sequential specification"
 BUDGET = {"quick": (2500, 13), "thorough": (400_000, 150)}
 WORKERS = {"quick": 4, "thorough": 16}
-REQUIRED = ["exactly_once", "arrival_order", "no_reentry", "own_completion", "sibling_not_blocked", "trace_equals_spec", "nextlayer_replay_order", "tunnel_queue_order", "handler_state_current", "live_equals_queued"]
+REQUIRED = ["exactly_once", "arrival_order", "no_reentry", "own_completion", "sibling_not_blocked", "trace_equals_spec", "nextlayer_replay_order", "tunnel_queue_order", "handler_state_current", "live_equals_queued", "long_pause", "long_pause_real", "long_pause_bytes_relayed"]
 RULE = (
     "case = (topology in {single, router, next-single, next-router, tunnel-single, tunnel-router, lazy-tunnel}, script family "
     "[which commands each probe yields per event: blocking hook / blocking open / send / wakeup / handler-state switch], parameters [k-th question decides, "
@@ -504,7 +504,8 @@ def run_one(ctx, topo, famname, script, params, word, picker=None):
             break
     # close the run: complete everything oldest-first
     guard = 0
-    while real.outstanding and not real.crash and guard < 400:
+    glimit = 400 + 2 * length
+    while real.outstanding and not real.crash and guard < glimit:
         guard += 1
         key = real.complete(0)
         completed.append((real.step, key))
@@ -513,7 +514,7 @@ def run_one(ctx, topo, famname, script, params, word, picker=None):
         else:
             spec.step += 1
         sync(len(word))
-    while spec.outstanding and guard < 800:  # the real side lost commands: let the specification finish on its own
+    while spec.outstanding and guard < 2 * glimit:  # the real side lost commands: let the specification finish on its own
         guard += 1
         spec.complete(spec.outstanding[0])
     judge(ctx, topo, famname, params, word, real, spec, fed, completed, diverged)
@@ -751,7 +752,7 @@ def drive_real_layer(kind, evs, delay):
             if budget == 0:
                 complete()
     n = 0
-    while outstanding and n < 200:
+    while outstanding and n < 200 + 4 * len(evs):
         n += 1
         complete()
     return trace, queued_any
@@ -807,6 +808,91 @@ def real_layer_case(ctx, r):
 
 
 # ---------------------------------------------------------------------------------------------
+# long pauses: hundreds to thousands of events reach a layer during ONE pause
+# ---------------------------------------------------------------------------------------------
+
+LONG_SIZES = [255, 256, 257, 300, 511, 512, 513, 1023, 1024, 1025, 2047, 2048, 2049, 4095, 4096, 4097, 5000]
+LONG_TOPOS = ["single", "router", "router-parent", "next-single", "tunnel-single", "lazy-tunnel", "next-router", "tunnel-router"]
+NEVER = 10**9
+
+
+def long_script(variant):
+    def cheap(uid):
+        n = int(uid[1:])
+        return "s" if n % 7 == 0 else "X" if n % 7 == 3 else ""
+
+    def script(name, uid):
+        if name == "TUN":
+            return "H" if uid == "hs0" and variant.startswith("tunnel-") else ""
+        if uid == "S":
+            return "T" if variant == "lazy-tunnel" and name == "A" else ""
+        if uid.startswith("w/"):
+            return ""
+        if name == "P":
+            return "H" if variant == "router-parent" and uid == "A1" else ""
+        if uid == "A1" and variant in ("single", "router"):
+            return "H"
+        return cheap(uid)
+
+    return script
+
+
+def long_pause_case(ctx, r, j):
+    size = LONG_SIZES[j % len(LONG_SIZES)] if j < len(LONG_SIZES) else r.choice([r.randint(258, 5000), r.choice(LONG_SIZES), 2 ** r.randint(8, 12) + r.choice([-1, 0, 1])])
+    if j % 3 == 2:
+        return long_pause_real(ctx, r, (j // 3) % 3, size)
+    variant = LONG_TOPOS[(j - j // 3) % len(LONG_TOPOS)]
+    topo = "router" if variant == "router-parent" else variant
+    params = {"decide_at": 0, "hlen": 0 if topo == "lazy-tunnel" else 1, "open_err": None}
+    pb = 0.0 if topo == "lazy-tunnel" else r.choice([0.0, 0.3])
+
+    def picker(n_out, server_open, r=r):
+        return "b" if server_open and pb and r.random() < pb else "a"
+
+    real, spec = run_one(ctx, topo, "long-pause", long_script(variant), params, size + 1, picker)
+    ctx.count("long_pause")
+    ctx.count("long_pause_events_queued", spec.queued)
+    sig = ("long-pause", variant, "le256" if size <= 256 else "le1024" if size <= 1024 else "gt1024", size & (size - 1) == 0, min(spec.maxq, 257) > 256)
+    ctx.case(sig, nontrivial=spec.maxq > 1, sample={"topology": variant, "events_during_one_pause": size, "max_queue_depth_in_spec": spec.maxq, "log_head": real.log[:8], "log_tail": real.log[-4:]})
+
+
+def long_pause_real(ctx, r, which, size):
+    """Real TCP / UDP / DNS layer: one message hook stays pending while `size` further events arrive."""
+    kind = ("tcp", "udp", "dns")[which]
+    if kind == "dns":
+        from mitmproxy.test import tutils
+
+        size = min(size, 1100)
+        evs = [("c", tutils.tdnsreq(id=i + 1).packed) for i in range(size + 1)]
+    else:
+        evs = [("c" if r.random() < 0.8 else "s", b"%d," % i) for i in range(size + 1)]
+        evs[0] = ("c", b"0,")
+    live, _ = drive_real_layer(kind, evs, [0] * (len(evs) + 1))
+    queued, queued_any = drive_real_layer(kind, evs, [0] + [NEVER] * len(evs))
+    ctx.count("long_pause_real")
+    w = {"layer": kind, "events_during_one_pause": size, "events_head": evs[:3]}
+    if live != queued:
+        n = next((i for i, (x, y) in enumerate(zip(live, queued)) if x != y), min(len(live), len(queued)))
+        ctx.violation("queued-events-not-handled-like-live-events", {**w, "first_difference_at": n, "live": live[n : n + 3], "queued": queued[n : n + 3], "live_len": len(live), "queued_len": len(queued)}, classify(kind, "long-pause", ""))
+    if kind != "dns":
+        # direct: every byte reaches the other side, in order, exactly once
+        for src, dst in (("c", "server"), ("s", "client")):
+            want = b"".join(p for s_, p in evs if s_ == src)
+            got = b"".join(t[2] for t in queued if t[0] == "send" and t[1] == dst)
+            ctx.count("long_pause_bytes_relayed")
+            if got != want:
+                ctx.violation("bytes-queued-during-a-long-pause-lost-or-reordered", {**w, "towards": dst, "expected_len": len(want), "got_len": len(got), "got_head": got[:40]}, classify(kind, "long-pause-bytes", ""))
+    else:
+        ctx.count("long_pause_bytes_relayed")
+        sent = [t[2][:2] for t in queued if t[0] == "send" and t[1] == "server"]
+        want = [p[:2] for _, p in evs]
+        if sent != want:
+            ctx.violation("dns-queries-queued-during-a-long-pause-lost-or-reordered", {**w, "expected": len(want), "forwarded": len(sent), "first_forwarded_id": sent[:1]}, classify(kind, "long-pause-dns", ""))
+    sig = ("long-pause-real", kind, "le256" if size <= 256 else "le1024" if size <= 1024 else "gt1024", size & (size - 1) == 0)
+    ctx.case(sig, nontrivial=queued_any, sample={"layer": kind, "events_during_one_pause": size, "commands": len(queued)})
+
+
+# ---------------------------------------------------------------------------------------------
 # enumeration
 # ---------------------------------------------------------------------------------------------
 
@@ -853,6 +939,7 @@ def run(ctx):
     ctx.extra["enumerated_max_length"] = maxlen
     ctx.extra["enumerated_configurations"] = len(CONFIGS)
     complete = True
+    n_long = 24 if ctx.tier == "quick" else 204
     for i in ctx.cases():
         r = ctx.rng
         k = i * ctx.nworkers + ctx.worker
@@ -863,6 +950,10 @@ def run(ctx):
             if not ok:
                 ctx.count("enumeration_chunks_cut_by_time_budget")
             ctx.count("enumerated_interleavings", n)
+            continue
+        j = k - len(items)
+        if j < n_long or r.random() < 0.004:
+            long_pause_case(ctx, r, j)
             continue
         if r.random() < 0.3:
             real_layer_case(ctx, r)
